@@ -263,6 +263,53 @@ def run_derive(c, res):
                 res.violation('derive:params', '%s gives (T, M, W) = %r, the documented rules give %r' % (what, got, exp), one)
                 continue
             res.ok('derive:' + cont, True)
+    # one list object handed to the transform for every channel in turn (as scatter2d does for the two axes): the list and its
+    # elements come back unchanged, and each answer equals the one for a freshly built list
+    if cont in ('fcs-list', 'array-list', 'mixed-fcs-first'):
+        mk = {'fcs-list': lambda: [d0, d1], 'array-list': lambda: [a0, a1], 'mixed-fcs-first': lambda: [d0, a1]}[cont]
+        shared = mk()
+        ids = [id(x) for x in shared]
+        for chs in ((0, 1, 2), (2, 0, 1)):
+            for ch in chs:
+                try:
+                    t_shared = L(data=shared, channel=ch)
+                    t_fresh = L(data=mk(), channel=ch)
+                except Exception as e:
+                    res.violation('derive:reused-list-raises:%s' % type(e).__name__, 'logicle(data=<the same %s list again>, channel=%d) raised %s: %s' % (cont, ch, type(e).__name__, e), dict(c))
+                    break
+                if [id(x) for x in shared] != ids:
+                    res.violation('derive:list-changed', 'logicle(data=%s list, channel=%d) replaced the elements of the caller\'s list' % (cont, ch), dict(c))
+                    break
+                if (float(t_shared.T), float(t_shared.M), float(t_shared.W)) != (float(t_fresh.T), float(t_fresh.M), float(t_fresh.W)):
+                    res.violation('derive:reused-list', 'logicle(data=<list used before for another channel>, channel=%d) gives %r, a fresh list gives %r' % (
+                        ch, (t_shared.T, t_shared.M, t_shared.W), (t_fresh.T, t_fresh.M, t_fresh.W)), dict(c))
+                    break
+            else:
+                continue
+            break
+        else:
+            res.ok('derive:reused-list', True)
+    # samples without events (everything gated out): alone with a known range, and anywhere in a list
+    if cont in ('fcs', 'fcs-list', 'mixed-fcs-first'):
+        e0 = d0[:0]
+        combos = [('empty sample alone', e0, [ranges[1] - 1], []), ('empty sample first in a list', [e0, d1], [ranges[1] - 1] * 2, [a1[:, 1]]),
+                  ('empty sample last in a list', [d1, e0], [ranges[1] - 1] * 2, [a1[:, 1]]), ('two empty samples', [e0, d1[:0]], [ranges[1] - 1] * 2, [])]
+        for label, data_, rng_, cols_ in combos:
+            try:
+                t = L(data=data_, channel=1)
+            except Exception as e:
+                res.violation('derive:empty-raises:%s' % type(e).__name__, 'logicle(data=%s, channel=1) raised %s: %s' % (label, type(e).__name__, e), dict(c))
+                continue
+            T = float(max(rng_))
+            M = logicleref.derived_M(T)
+            W = 0.0
+            for col in cols_:
+                mn = float(np.min(col))
+                W = max(W, logicleref.derived_W(T, M, mn if mn < 0 else None))
+            if not all(abs(g - e_) <= ptol * max(1.0, abs(e_)) for g, e_ in zip((float(t.T), float(t.M), float(t.W)), (T, M, W))):
+                res.violation('derive:empty-params', 'logicle(data=%s) gives %r, the documented rules give %r' % (label, (t.T, t.M, t.W), (T, M, W)), dict(c))
+            else:
+                res.ok('derive:empty', True)
     # multidimensional data without a channel is refused
     if cont in ('fcs', 'array'):
         try:
